@@ -113,6 +113,20 @@ def trim : List Nat → List Nat
     | [] => if x = 0 then [] else [x]
     | t => x :: t
 
+/-- the dispatch of `algorithms::div` on the trimmed operands (`numerator.len() >= divisor.len() >= 1`):
+    (quotient limbs, remainder limbs) -/
+def divDispatch (nt dt : List Nat) : List Nat × List Nat :=
+  if dt.length ≤ 2 then
+    if dt.length = 1 then
+      if nt.length = 1 then ([nt.getD 0 0 / dt.getD 0 0], [nt.getD 0 0 % dt.getD 0 0])
+      else
+        let r := divNx1 nt (dt.getD 0 0)
+        (r.1, [r.2])
+    else
+      let r := divNx2 nt (dt.getD 1 0 * W + dt.getD 0 0)
+      (r.1, [r.2 % W, r.2 / W])
+  else divNxm nt dt
+
 /-- `algorithms::div(numerator, divisor)`: (numerator afterwards = quotient, divisor afterwards = remainder);
     `none` = panic ("Divisor is zero"). -/
 def div (num ds : List Nat) : Option (List Nat × List Nat) :=
@@ -128,17 +142,7 @@ def div (num ds : List Nat) : Option (List Nat × List Nat) :=
       some (List.replicate nt.length 0 ++ num.drop nt.length,
             nt ++ List.replicate (dt.length - nt.length) 0 ++ ds.drop dt.length)
     else
-      let qr : List Nat × List Nat :=
-        if dt.length ≤ 2 then
-          if dt.length = 1 then
-            if nt.length = 1 then ([nt.getD 0 0 / dt.getD 0 0], [nt.getD 0 0 % dt.getD 0 0])
-            else
-              let r := divNx1 nt (dt.getD 0 0)
-              (r.1, [r.2])
-          else
-            let r := divNx2 nt (dt.getD 1 0 * W + dt.getD 0 0)
-            (r.1, [r.2 % W, r.2 / W])
-        else divNxm nt dt
+      let qr := divDispatch nt dt
       some (qr.1 ++ num.drop nt.length, qr.2 ++ ds.drop dt.length)
 
 end Ruint.Div
